@@ -3,7 +3,7 @@ import ast
 from collections import namedtuple
 
 from .model import AnalysisError, node_src, is_self_attr, call_name, fold, NotConst
-from .paths import Interp, Domain, Env, TOP, NONE, Const, TupleV, Exc, ORD, ASYNC, fmt_trace, Opaque, Ctx
+from .paths import Interp, Domain, Env, TOP, NONE, Const, TupleV, Exc, ORD, ASYNC, fmt_trace, Opaque, Ctx, FuncRef
 from .report import walk_no_nested
 from . import exchange
 
@@ -24,18 +24,22 @@ FRESH, SAVED, EMPTY, SPLIT = Chunk("fresh"), Chunk("saved"), Chunk("empty"), Chu
 CONTENT_OPS = ("strip", "rstrip", "lstrip", "replace", "split", "rsplit", "splitlines", "translate", "decode", "partition", "rpartition", "removesuffix", "removeprefix", "expandtabs", "lower", "upper")
 
 
-class ByteDomain(Domain):
-    async_enabled = False
-    subscript_may_raise = False
-    unpack_may_raise = False
+class ByteDomain(exchange.ExchangeDomain):
+    """Chunk liveness.  Private helper methods are inlined (a chunk passed to a helper flows into it; the helper's
+    returned leftover is a fresh chunk of the caller); readers are followed by value (FuncRef)."""
+
+    global_keys = exchange.ExchangeDomain.global_keys
 
     def __init__(self, prog, fn, readers, reader_methods, is_reader):
-        super().__init__(prog, fn)
-        self.readers = set(readers) | exchange.local_reader_aliases(fn, readers)
-        self.reader_methods = reader_methods
+        super().__init__(prog, fn, readers, None, with_async=False)
+        self.subscript_may_raise = False
+        self.unpack_may_raise = False
         self.is_reader = is_reader
         self.kills = []
         self.sources = 0
+
+    def call_raises(self, node, state, ord_=True, async_=None):
+        return []  # exceptions are irrelevant for liveness: a raising path delivers nothing
 
     def truth(self, v, state=None):
         if isinstance(v, Chunk):
@@ -54,7 +58,7 @@ class ByteDomain(Domain):
         if isinstance(cur, Chunk) and cur.status == "fresh":
             aug = isinstance(node, ast.AugAssign)
             if not aug:
-                self.kills.append((name, node, state))
+                self.kills.append((name, node, state, self.fn))
         return state.set(name, value)
 
     def _save(self, state, expr):
@@ -75,6 +79,11 @@ class ByteDomain(Domain):
             return st
         return state
 
+    def is_global_key(self, k):
+        if isinstance(k, tuple) and k and k[0] == "parts":
+            return False
+        return super().is_global_key(k)
+
     def binop(self, node, l, r, state):
         return TOP
 
@@ -82,26 +91,35 @@ class ByteDomain(Domain):
         return TupleV(tuple(items))
 
     def subscript_load(self, objval, idxval, node, state):
-        return (Chunk("fresh") if False else TOP), False
+        return TOP, False
 
     def call(self, node, fval, args, kwargs, state):
-        name = call_name(node)
-        is_reader = (isinstance(node.func, ast.Name) and node.func.id in self.readers) or (isinstance(node.func, ast.Attribute) and is_self_attr(node.func) and node.func.attr in self.reader_methods)
         if isinstance(node.func, ast.Name) and node.func.id == "_recv":
             self.sources += 1
             return [("ok", FRESH, state)]
-        if is_reader:
+        if self.is_reader_call(node, fval):
             self.sources += 1
             st = state
             for a in list(node.args) + [k.value for k in node.keywords]:
                 st = self._save(st, a)
-            if isinstance(node.func, ast.Attribute) and node.func.attr in self.reader_methods:
-                return [("ok", TupleV((TOP, TOP, FRESH)), st)]
             return [("ok", TupleV((FRESH, TOP)), st)]
         if isinstance(node.func, ast.Attribute) and node.func.attr in ("append", "extend", "write") and node.args:
             return [("ok", NONE, self._save(state, node.args[0]))]
         if isinstance(node.func, ast.Attribute) and node.func.attr == "join":
             return [("ok", TOP, state)]
+        name = call_name(node)
+        if name.startswith("self.") and name.count(".") == 1:
+            m = self.prog.cls("Client").methods.get(name[5:])
+            if m is not None and name[5:].startswith("_") and name[5:] not in exchange.SUMMARISED:
+                # chunks handed to the helper flow into it
+                st = state
+                for a in list(node.args) + [k.value for k in node.keywords]:
+                    st = self._save(st, a)
+                res = self.inline(node, m, args, kwargs, st)
+                if res is not None:
+                    return [r for r in res if r[0] == "ok"]
+        if name in ("partial", "functools.partial") and args and isinstance(args[0], FuncRef):
+            return [("ok", args[0], state)]
         return [("ok", TOP, state)]
 
     def on_stmt(self, node, state):
@@ -132,6 +150,21 @@ class ByteDomain(Domain):
         return state
 
     def ret_value(self, st, v, s):
+        """What a function hands back: a leftover component is a fresh chunk of the caller."""
+        if not self.frames:
+            return TOP
+        val = st.value
+        if isinstance(val, ast.Tuple):
+            items = []
+            for e in val.elts:
+                # a returned buffer / tail slice of a buffer carries unread bytes
+                if isinstance(e, ast.Name) and isinstance(s.get(e.id, None), Chunk):
+                    items.append(FRESH)
+                elif isinstance(e, ast.Subscript) and isinstance(e.value, ast.Name) and isinstance(s.get(e.value.id, None), Chunk):
+                    items.append(FRESH)
+                else:
+                    items.append(TOP)
+            return TupleV(tuple(items))
         return TOP
 
 
@@ -145,13 +178,13 @@ def run(chk):
     direct, readers = exchange.recv_reaching_functions(prog)
     rmeth = exchange.methods_reaching_readers(prog, readers)
     exch = exchange.exchange_functions(prog)
-    reader_fns = [mod.functions[n] for n in sorted(readers) if n not in direct]
+    reader_fns = [mod.functions[n] for n in sorted(readers) if mod.functions[n].param("buf") is not None]
 
     # ------------------------------------------------------------------ R1
     r1 = chk.rule("C03.R1", "no received byte is dropped: every chunk / leftover flows into the result, the next reader or the returned leftover before it is overwritten or the reader returns")
     r1.floor("reader functions", len(reader_fns), 3)
     n_src = 0
-    scope = [(f, True) for f in reader_fns] + [(f, False) for f in exch] + [(prog.method("Client", m), False) for m in sorted(rmeth)]
+    scope = [(f, True) for f in reader_fns] + [(f, False) for f in exch]
     for f, is_reader in scope:
         dom = ByteDomain(prog, f, readers, rmeth, is_reader)
         init = {}
@@ -161,8 +194,8 @@ def run(chk):
         outs = Interp(dom, f.node, prog).run(Env(init))
         n_src += dom.sources
         seen = set()
-        for name, node, st in dom.kills:
-            key = "%s:overwrites-unsaved:%s" % (f.qualname, name)
+        for name, node, st, where in dom.kills:
+            key = "%s:overwrites-unsaved:%s" % (where.qualname if where is not None else f.qualname, name)
             if key in seen:
                 continue
             seen.add(key)
